@@ -816,3 +816,29 @@ Proof. intros E p h. exact (routing E (handle_checkpoint E p h)). Qed.
 Lemma orphans_hc : forall E p h q,
   innermost (e_layout E) q = None -> forall r, ~ recorded_in E (handle_checkpoint E p h) q r.
 Proof. intros E p h. exact (orphans_ignored E (handle_checkpoint E p h)). Qed.
+
+(* ================================================================= work-dir membership is component-wise *)
+Lemma in_wd_componentwise E r f : in_wd E r f = true <-> exists rest, resolve E f = workdir r ++ rest.
+Proof. unfold in_wd, resolve. destruct (canon E f); apply prefixb_spec. Qed.
+
+(* a sibling directory is never inside, however its NAME relates to ours as a string (proj / proj-docs) *)
+Lemma sibling_not_inside : forall (w : path) (c c' : str) (rest : path),
+  c' <> c -> prefixb (w ++ [c]) (w ++ c' :: rest) = false.
+Proof.
+  induction w as [| x w IH]; intros c c' rest H; cbn [app prefixb].
+  - assert (E : str_eqb c c' = false) by (apply str_eqb_neq; congruence). now rewrite E.
+  - rewrite str_eqb_refl. cbn. now apply IH.
+Qed.
+
+Lemma recorded_componentwise E p h q r : recorded_in E (handle_checkpoint E p h) q r ->
+  exists rest, q = workdir r ++ rest.
+Proof.
+  intro H. apply no_escape in H as (f & _ & _ & Hp). now apply prefixb_spec in Hp.
+Qed.
+
+(* "proj" vs "proj-docs": the file of the sibling is not in our work dir *)
+Lemma ex_sibling_name_prefix :
+  let proj := mkRepo [[119; 115]; [112; 114; 111; 106]] KNormal in
+  let f := raw_of_path [[119; 115]; [112; 114; 111; 106; 45; 100; 111; 99; 115]; [120]] in
+  forall E, in_wd E proj f = match canon E f with Some q => prefixb (workdir proj) q | None => false end.
+Proof. intros proj f E. unfold in_wd. destruct (canon E f); reflexivity. Qed.
